@@ -34,27 +34,46 @@ class C07(EngineProp):
             count = rng.choice([0, 1, 2, 3, 5, 8])
             out.append({'mode': 'source', 'role': 'server', 'profile': 'source', 'kind': kind, 'count': count,
                         'flagged': rng.random() < 0.4 and kind in ('gen', 'agen') and count > 0, 'failing': rng.random() < 0.5, 'steps': steps})
+        # awaitables obtained while the connection is going away (a fallback request issued inside on_error / on_close, or on an endpoint
+        # whose connection is already lost): the TCP scenarios of C11, judged here for "resolved exactly once" - not zero times
+        from harness.props import c11
+        k = 0
+        for c in c11.PROP.cases(rng, 'quick' if tier == 'quick' else 'thorough'):
+            if c.get('mode') == 'tcp' and (c.get('ask_in_on_error') or c.get('ask_in_on_close') or c.get('late_rr')):
+                out.append({'mode': 'teardown', 'role': c['role'], 'profile': 'teardown', 'kind': 'tcp', 'c11': c})
+                k += 1
+                if k >= (120 if tier == 'quick' else 2000):
+                    break
         return out
 
     def run_impl(self, case):
         if case.get('mode') == 'source':
             from harness import detloop, sources
             return detloop.run(sources.drive, case)
+        if case.get('mode') == 'teardown':
+            from harness.props import c11
+            return c11.PROP.run_impl(case['c11'])
         return super().run_impl(case)
 
     def model_lines(self, case, obs):
-        return [] if case.get('mode') == 'source' else super().model_lines(case, obs)
+        return [] if case.get('mode') in ('source', 'teardown') else super().model_lines(case, obs)
 
     def compare(self, case, obs, answers):
-        return None if case.get('mode') == 'source' else super().compare(case, obs, answers)
+        return None if case.get('mode') in ('source', 'teardown') else super().compare(case, obs, answers)
 
     def nontrivial(self, case, obs):
+        if case.get('mode') == 'teardown':
+            import json
+            return json.dumps(case, sort_keys=True)
         if case.get('mode') == 'source':
             import json
             return json.dumps(case, sort_keys=True) if obs['events'] else None
         return super().nontrivial(case, obs)
 
     def stats(self, case, obs):
+        if case.get('mode') == 'teardown':
+            yield 'mode=teardown'
+            return
         if case.get('mode') == 'source':
             yield 'mode=source'
             yield 'kind=' + case['kind']
@@ -62,6 +81,8 @@ class C07(EngineProp):
         yield from super().stats(case, obs)
 
     def shrink_candidates(self, case):
+        if case.get('mode') == 'teardown':
+            return
         if case.get('mode') == 'source':
             st = case['steps']
             for i in range(len(st) - 1):
@@ -70,9 +91,20 @@ class C07(EngineProp):
         yield from super().shrink_candidates(case)
 
     def explicit(self, case, obs):
-        return case if case.get('mode') == 'source' else super().explicit(case, obs)
+        return case if case.get('mode') in ('source', 'teardown') else super().explicit(case, obs)
 
     def oracle(self, case, obs):
+        if case.get('mode') == 'teardown':
+            fails = []
+            sweep = set(obs.get('asked_in_final_sweep') or [])
+            for name in ('futures', 'late_futures', 'asked_in_on_close'):
+                for i, f in enumerate(obs.get(name) or []):
+                    if f == 'pending' and name == 'asked_in_on_close' and i in sweep:
+                        fails.append({'signature': 'awaitable-never-resolved:issued-inside-on_error-during-the-final-sweep', 'what': 'a fallback request-response issued by a subscriber inside on_error, while close() was failing the streams of an already lost connection (%s endpoint), is never resolved (F22)' % case['c11']['role']})
+                    elif f == 'pending':
+                        fails.append({'signature': 'awaitable-never-resolved', 'what': 'request-response awaitable %s[%d] (%s endpoint over TransportTCP, connection ended by %s) is still pending after close(): resolved zero times' % (
+                            name, i, case['c11']['role'], case['c11']['cut'])})
+            return fails
         if case.get('mode') == 'source':
             fails = []
             term = None
